@@ -20,14 +20,17 @@ RULE = ('cases = (statement text, catalog): SELECT / UNION / INSERT / UPDATE / D
         '/ int1, drawn time-series settings. Judged: plan_query raises only PlanningException / NotImplementedError; '
         'otherwise steps[i].step_num == i, sub-steps un-numbered or "<i>_<j>", every Result / Parameter(Result) / step '
         'object held by identity found by a reflection walk refers to an existing strictly earlier step (or earlier '
-        'sibling inside a container), every step feeds the last one, a DML statement ends with its DML step; plus a '
+        'sibling inside a container), every step feeds the last one (for WITH statements: every table the statement reads, directly or through '
+        'the CTEs it uses, is mentioned by a step feeding the last one -- checked for all statements), a DML '
+        'statement ends with its DML step; plus a '
         'bounded-exhaustive part: every join shape over {table, model, ts-model, sub-select, native query, injected data} up to length 3 '
         '(thorough: 4) x 4 variants x 12 statement wraps on fixed catalogs. '
         'non-trivial = >= 3 steps, or a container step, or an exception path; distinct by (catalog, text)')
 ASSUMPTIONS = ['"the last step produces the answer" is read as: the last step is the single sink of the reference graph '
                '(every other step is consumed, directly or transitively, by it) and a DML statement ends with its DML '
                'step; statements with a WITH clause are exempt from the sink clause (CTE bodies are planned eagerly and may '
-               'legitimately stay unread)',
+               'legitimately stay unread) but not from the answer clause: every table the statement reads outside unused '
+               'CTE bodies is mentioned (as a name part of some identifier) by the last step or a step feeding it',
                'references are collected by reflection over vars() of steps and embedded trees (vf.oracles.struct.walk), '
                'not by the library\'s query_traversal; a step object held by identity (DML steps) counts as a reference',
                'catalog encodings are those the repository\'s own planner tests use; legacy dotted metadata keys are '
